@@ -415,6 +415,9 @@ func runC05(c *mc.Ctx) {
 				raws = append(raws, c05Raw{StrHex: mc.Hex([]byte(str[:pos] + string([]byte{byte(v)}) + str[pos:])), Why: "one byte inserted into the string"})
 			}
 		}
+		for _, m := range runeSubstitutions(str) {
+			raws = append(raws, c05Raw{StrHex: mc.Hex([]byte(m)), Why: "one character of the string replaced by a multi-byte character a rune-wise decoder may take for it"})
+		}
 		// (a) no checksum fix: single-bit flips, single-byte substitutions
 		for bit := 0; bit < 82*8; bit++ {
 			m := append([]byte{}, f...)
